@@ -142,7 +142,9 @@ def execute_query(query):
         othercols = [i for i in range(len(columns)) if i not in query.pivots]
         nother = len(othercols)
         other = lambda x: tuple(x[i] for i in othercols)
-        keys = sorted({row[col2] for row in rows})
+        # The pivot columns may contain NULL values: sort them first.
+        nullfirst = lambda value: value if value is not None else NULL
+        keys = sorted({row[col2] for row in rows}, key=nullfirst)
 
         # Compute the new column names and dtypes.
         if nother > 1:
@@ -155,7 +157,7 @@ def execute_query(query):
 
         # Populate the pivoted table.
         pivoted = []
-        rows.sort(key=operator.itemgetter(col1))
+        rows.sort(key=nullitemgetter(col1))
         for field1, group in itertools.groupby(rows, key=operator.itemgetter(col1)):
             outrow = [field1] + [None] * (len(columns) - 1)
             for row in group:
